@@ -273,8 +273,6 @@ def consumer_iban(ctx, model, e, rng):
             bban += alpha[0] * k if variant == 'first' else alpha[-1] * k if variant == 'last' else ''.join(rng.choice(alpha) for _ in range(k))
         w = cc + mod97(cc, bban) + bban
         ctx.expect('stdnum.iban', 'validate', (w,), w, 'iban-structure-admits-witness', e.label(), kwargs={'check_country': False})
-        if 'length' in e.props:
-            pass
 
 
 def consumer_gs1(ctx, model, e, rng):
